@@ -475,6 +475,10 @@ def handle (s : Sess) (line : String) : Sess × List String :=
     match doPrune s (kvs rest) with
     | some (s', out) => (s', out)
     | none => (s, ["bad-op prune", "end"])
+  | ["pruneparam", r, q] =>
+    match r.toInt?, q.toInt? with
+    | some r, some q => let x := pruneParam r q; (s, [s!"eff {x.1}", s!"recorded {x.2}", "end"])
+    | _, _ => (s, ["bad-op pruneparam", "end"])
   | "setforest" :: rest =>
     match doSetForest (kvs rest) with
     | some (s', out) => (s', out)
